@@ -165,11 +165,17 @@ class Interp:
         act = self.stack[-1] if self.stack else None
         return (act.fi.qualname if act and act.fi else "?", getattr(node, "lineno", None), act.id if act else 0)
 
-    def new_list(self, segs, node=None):
-        return self.alloc(HList(segs, self.origin(node)))
+    def new_list(self, segs, node=None, tree=None):
+        r = self.alloc(HList(segs, self.origin(node)))
+        if tree is not None:
+            tree.append(("alloc", r, getattr(node, "lineno", None)))
+        return r
 
-    def new_dict(self, entries, node=None):
-        return self.alloc(HDict(entries, self.origin(node)))
+    def new_dict(self, entries, node=None, tree=None):
+        r = self.alloc(HDict(entries, self.origin(node)))
+        if tree is not None:
+            tree.append(("alloc", r, getattr(node, "lineno", None)))
+        return r
 
     # -- types --------------------------------------------------------------------------
     def attr_class(self, cls: ClassInfo, name: str) -> ClassInfo | None:
@@ -355,10 +361,10 @@ class Interp:
         return segs
 
     def ev_List(self, st, n, tree):
-        return self.new_list(self._seq_segs(st, n.elts, tree), n)
+        return self.new_list(self._seq_segs(st, n.elts, tree), n, tree)
 
     def ev_Set(self, st, n, tree):
-        return ("call", "set", (self.new_list(self._seq_segs(st, n.elts, tree), n),), ())
+        return ("call", "set", (self.new_list(self._seq_segs(st, n.elts, tree), n, tree),), ())
 
     def ev_Dict(self, st, n, tree):
         entries = []
@@ -368,7 +374,7 @@ class Interp:
             else:
                 kt = self.ev(st, k, tree)
                 entries.append((kt, self.ev(st, v, tree)))
-        return self.new_dict(entries, n)
+        return self.new_dict(entries, n, tree)
 
     def ev_JoinedStr(self, st, n, tree):
         parts = []
@@ -394,7 +400,7 @@ class Interp:
         if op == "Add":
             la, lb = self.obj(a), self.obj(b)
             if isinstance(la, HList) or isinstance(lb, HList):
-                return self.new_list([("s", a), ("s", b)], n)
+                return self.new_list([("s", a), ("s", b)], n, tree)
             if is_const(a) and is_const(b) and type(a[1]) is type(b[1]) and isinstance(a[1], (int, str)):
                 return const(a[1] + b[1])
         if op == "Mult" and is_const(a) and is_const(b) and isinstance(a[1], (int, str)) and isinstance(b[1], int):
@@ -534,7 +540,7 @@ class Interp:
             segs = [("e", self.ev(f, n.elt, sub))]
         tree.append(("loop", lid, sub))
         # attribute stores inside comprehensions are not expected; keep outer state
-        return self.new_list([("loop", lid, segs)], n)
+        return self.new_list([("loop", lid, segs)], n, tree)
 
     def ev_ListComp(self, st, n, tree):
         return self._comp(st, n, tree, "list")
@@ -629,9 +635,9 @@ class Interp:
             if nm in ("typing.cast", "typing_extensions.cast") and len(args) == 2:
                 return args[1]
             if nm in ("collections.deque",) and not args:
-                return self.new_list([], n)
+                return self.new_list([], n, tree)
             if nm == "collections.defaultdict":
-                return self.new_dict([], n)
+                return self.new_dict([], n, tree)
             tree.append(("extcall", nm, tuple(args), line))
             return ("call", nm, tuple(args), tuple(sorted(kwargs.items())))
         if k == "attr":
@@ -643,7 +649,7 @@ class Interp:
                     return ("call", "." + name, (recv,) + tuple(args), ())
                 return NONE
             if name == "copy" and not args:
-                return self.new_list([("s", recv)], n) if not isinstance(o, HDict) else self.new_dict([("**", recv)], n)
+                return self.new_list([("s", recv)], n) if not isinstance(o, HDict) else self.new_dict([("**", recv)], n, tree)
             if name == "format":
                 return ("call", ".format", (recv,) + tuple(args), tuple(sorted(kwargs.items())))
             return ("call", "." + name, (recv,) + tuple(args), tuple(sorted(kwargs.items())))
@@ -656,17 +662,17 @@ class Interp:
     def call_builtin(self, st, name, args, kwargs, n, tree):
         line = getattr(n, "lineno", None)
         if name in ("list", "tuple") and len(args) <= 1 and name == "list":
-            return self.new_list([("s", args[0])] if args else [], n)
+            return self.new_list([("s", args[0])] if args else [], n, tree)
         if name == "tuple" and len(args) == 1:
             return ("call", "tuple", tuple(args), ())
         if name == "dict":
             ents = [("**", args[0])] if args else []
             ents += [(const(k), v) for k, v in kwargs.items() if k != "**"]
-            return self.new_dict(ents, n)
+            return self.new_dict(ents, n, tree)
         if name == "cast" and len(args) == 2:
             return args[1]
         if name == "deque":
-            return self.new_list([("s", a) for a in args], n)
+            return self.new_list([("s", a) for a in args], n, tree)
         if name in ("print",):
             tree.append(("extcall", name, tuple(args), line))
             return NONE
@@ -679,7 +685,7 @@ class Interp:
 
     def instantiate(self, st, cls: ClassInfo, args, kwargs, n, tree):
         if cls.is_typeddict or any(c.is_typeddict for c in cls.mro()):
-            return self.new_dict([(const(k), v) for k, v in kwargs.items()], n)
+            return self.new_dict([(const(k), v) for k, v in kwargs.items()], n, tree)
         ref = self.alloc(HInst(cls, self.origin(n)))
         init = cls.find_method("__init__")
         if init is not None:
@@ -781,7 +787,7 @@ class Interp:
                                 d = args[pidx] if pidx < len(args) else ("opaque", "?")
                                 o = self.obj(d)
                                 if isinstance(o, HDict):
-                                    return self.new_dict([(e[0], e[1]) if e[0] == "**" else (e[0], ("dropnone", e[1])) for e in o.entries], n)
+                                    return self.new_dict([(e[0], e[1]) if e[0] == "**" else (e[0], ("dropnone", e[1])) for e in o.entries], n, tree)
                                 return ("call", "reject_nones", (d,), ())
                             return h
         return None
